@@ -29,6 +29,7 @@ pub struct Norm<'a> {
     pub tmp_no: usize,
     pub split_no: usize,
     pub splitk_no: BTreeMap<String, usize>,
+    pub spine_no: usize,
     pub call_no: BTreeMap<String, usize>,
     pub let_no: BTreeMap<String, usize>,
     pub hoisted: Vec<Stmt>,
@@ -54,7 +55,7 @@ impl<'a> Norm<'a> {
     pub fn new(spec: &'a FnSpec, unit: &'a Unit, canary: bool, fname: &str) -> Self {
         Norm {
             spec, unit, canary, fname: fname.to_string(),
-            loop_no: 0, closure_no: 0, if_no: 0, match_no: 0, assert_no: 0, return_no: 0, forpat_no: 0, tmp_no: 0, split_no: 0, splitk_no: Default::default(),
+            loop_no: 0, closure_no: 0, if_no: 0, match_no: 0, assert_no: 0, return_no: 0, forpat_no: 0, tmp_no: 0, split_no: 0, splitk_no: Default::default(), spine_no: 0,
             call_no: Default::default(), let_no: Default::default(), hoisted: vec![], log: Default::default(),
             raws: vec![], used_anchors: Default::default(), avail_anchors: Default::default(), errors: vec![],
             closure_depth: 0, canaries: vec![], str_idents: Default::default(), iter_idents: Default::default(), bind_no: Default::default(), bind_done: Default::default(),
@@ -86,13 +87,15 @@ impl<'a> Norm<'a> {
         Some(self.raw_stmt(&format!("assert(false); /*VX-CANARY {}*/", tag)))
     }
 
-    fn is_iter_chain(e: &Expr) -> bool {
+    fn is_iter_chain(e: &Expr, iter_fns: &[String]) -> bool {
         match e {
             Expr::MethodCall(mc) => {
-                if ITER_HEADS_M.contains(&mc.method.to_string().as_str()) {
+                let m = mc.method.to_string();
+                // @iter-fn: methods of extracted types whose return type was mapped onto VxIter
+                if ITER_HEADS_M.contains(&m.as_str()) || iter_fns.iter().any(|f| f == &m) {
                     return true;
                 }
-                Self::is_iter_chain(&mc.receiver)
+                Self::is_iter_chain(&mc.receiver, iter_fns)
             }
             Expr::Call(c) => {
                 if let Expr::Path(p) = &*c.func {
@@ -102,7 +105,7 @@ impl<'a> Norm<'a> {
                 }
                 false
             }
-            Expr::Paren(p) => Self::is_iter_chain(&p.expr),
+            Expr::Paren(p) => Self::is_iter_chain(&p.expr, iter_fns),
             _ => false,
         }
     }
@@ -148,6 +151,8 @@ impl<'a> Norm<'a> {
                 Some(parse_quote!(vx_unreachable()))
             }
             "vec" | "smallvec" | "smallvec_inline" => {
+                // smallvec![..] / smallvec_inline![..] follow R-TYPE (SmallVec -> Vec): same element list as vec![..]
+                if name != "vec" { self.bump("R-TYPE"); }
                 // vec![e; n] -> vx_vec_repeat(e, n); other forms stay
                 let toks = mac.tokens.to_string();
                 if toks.contains(';') {
@@ -540,6 +545,23 @@ impl<'a> VisitMut for Norm<'a> {
 
     fn visit_block_mut(&mut self, b: &mut Block) {
         let mut old = std::mem::take(&mut b.stmts);
+        // R-BINDSPINE (@bindspine f g []): on the first-evaluated spine of a `let` initialiser / statement-level `if let` scrutinee
+        // (method receiver, first argument of a path call, operand of `?`/`.await`) calls of the named callees are bound to `let __tK = ..;`
+        if !self.spec.bindspine.is_empty() {
+            let mut out: Vec<Stmt> = vec![];
+            for mut s in old {
+                let mut pre: Vec<Stmt> = vec![];
+                match &mut s {
+                    Stmt::Local(l) => { if let Some(init) = &mut l.init { self.split_spine(&mut init.expr, &mut pre); } }
+                    // statement-level `if let P = E { .. }`: E is evaluated first
+                    Stmt::Expr(Expr::If(i), _) => { if let Expr::Let(l) = &mut *i.cond { self.split_spine(&mut l.expr, &mut pre); } }
+                    _ => {}
+                }
+                out.extend(pre);
+                out.push(s);
+            }
+            old = out;
+        }
         // R-LETSPLIT (@letsplit m1 m2): in a `let` initialiser, the receiver chain of `.m(..)` is bound by `let mut __vx_tK = RECV;`
         if !self.spec.letsplit.is_empty() {
             let mut out: Vec<Stmt> = vec![];
@@ -781,6 +803,10 @@ impl<'a> VisitMut for Norm<'a> {
                     return;
                 }
             }
+            Expr::Closure(c) if c.asyncness.is_some() => {
+                c.asyncness = None;
+                self.bump("R-ASYNC");
+            }
             Expr::Await(a) => {
                 let base = (*a.base).clone();
                 *e = base;
@@ -871,7 +897,7 @@ impl<'a> VisitMut for Norm<'a> {
                     }
                 }
                 // iterator chain in head position
-                let mut chain = Self::is_iter_chain(&f.expr);
+                let mut chain = Self::is_iter_chain(&f.expr, &self.unit.iter_fns);
                 if let (false, Expr::MethodCall(mc)) = (forref, &mut *f.expr) {
                     if mc.args.is_empty() && mc.method == "vx_iter" {
                         mc.method = Ident::new("iter", mc.method.span());
@@ -1304,6 +1330,53 @@ impl<'a> VisitMut for Norm<'a> {
 }
 
 impl<'a> Norm<'a> {
+    /// R-BINDSPINE: walk the "first evaluated" spine of an expression (method receiver, first argument of a path call,
+    /// operand of `?`/`.await`) and bind the calls named by @bindspine to fresh `__tK` temporaries, innermost first.
+    fn split_spine(&mut self, e: &mut Expr, out: &mut Vec<Stmt>) {
+        match e {
+            Expr::MethodCall(mc) => self.split_slot(&mut mc.receiver, out),
+            Expr::Call(c) => {
+                if matches!(&*c.func, Expr::Path(_)) {
+                    if let Some(first) = c.args.first_mut() { self.split_slot(first, out); }
+                }
+            }
+            Expr::Try(t) => self.split_spine(&mut t.expr, out),
+            Expr::Await(a) => self.split_spine(&mut a.base, out),
+            Expr::Paren(p) => self.split_spine(&mut p.expr, out),
+            _ => {}
+        }
+    }
+    fn split_slot(&mut self, slot: &mut Expr, out: &mut Vec<Stmt>) {
+        // `&[a, b, c]` (pseudo-callee `[]`): the array temporary gets a name, the slot borrows it
+        if let Expr::Reference(r) = slot {
+            if r.mutability.is_none() && matches!(&*r.expr, Expr::Array(_)) && self.spec.bindspine.iter().any(|x| x == "[]") {
+                self.spine_no += 1;
+                let id = Ident::new(&format!("__t{}", self.spine_no), Span::call_site());
+                let val = (*r.expr).clone();
+                out.push(parse_quote!(let #id = #val;));
+                r.expr = Box::new(parse_quote!(#id));
+                self.bump("R-BINDSPINE");
+                return;
+            }
+        }
+        self.split_spine(slot, out);
+        let callee = match &*slot {
+            Expr::MethodCall(r) => Some(r.method.to_string()),
+            Expr::Call(c) => if let Expr::Path(p) = &*c.func { p.path.segments.last().map(|s| s.ident.to_string()) } else { None },
+            _ => None,
+        };
+        if let Some(nm) = callee {
+            if self.spec.bindspine.iter().any(|x| x == &nm) {
+                self.spine_no += 1;
+                let id = Ident::new(&format!("__t{}", self.spine_no), Span::call_site());
+                let val = slot.clone();
+                out.push(parse_quote!(let #id = #val;));
+                *slot = parse_quote!(#id);
+                self.bump("R-BINDSPINE");
+            }
+        }
+    }
+
     fn finish_loop(&mut self, n: usize, body: &mut Block) {
         let s0 = self.anchor(&format!("loop{}.start", n));
         let s1 = self.anchor(&format!("loop{}.end", n));
